@@ -59,12 +59,18 @@ Proof.
   - eapply cells_ext_linv; eassumption.
 Qed.
 
+Lemma env_incl_fresh (E : env) x (p : positive) : sget x E = None -> env_incl E (sset x p E).
+Proof.
+  intros Hn y q H. destruct (string_dec y x) as [->|Hne]; [congruence|].
+  rewrite sget_sset_other by exact Hne. exact H.
+Qed.
+
 Lemma lframe_local c c' E st t v :
-  wfenv E st -> linv st -> E_lt E c -> c <= t < c' ->
+  wfenv E st -> linv st -> sget (fmt_var t) E = None -> c <= t < c' ->
   lframe c c' E st (sset (fmt_var t) (s_ncell st) E) (snd (alloc_cell st v)).
 Proof.
   intros Hwf Hl Hlt Ht. constructor.
-  - eapply env_incl_local; [exact Hlt | lia].
+  - apply env_incl_fresh. exact Hlt.
   - intros x p H. destruct (string_dec x (fmt_var t)) as [->|Hne].
     + right. exists t. split; [reflexivity | exact Ht].
     + left. rewrite sget_sset_other in H by exact Hne. exact H.
@@ -88,26 +94,15 @@ Proof.
   - apply linv_set_cell. exact Hl.
 Qed.
 
-Definition F_lt (bound : N) (F : list N) (c : N) : Prop := forall t, In t F -> bound <= t /\ t < c.
+(* the frozen temporaries are temporaries, none of them numbered in [c, c') *)
+Definition F_out (bound : N) (F : list N) (c c' : N) : Prop :=
+  forall t, In t F -> bound <= t /\ ~ (c <= t < c').
 
-Lemma F_lt_mono bound F c c' : F_lt bound F c -> c <= c' -> F_lt bound F c'.
-Proof. intros H Hc t Ht. destruct (H t Ht). lia. Qed.
-
-Lemma F_lt_cons bound F c t : F_lt bound F c -> bound <= t -> t < c -> F_lt bound (t :: F) c.
-Proof. intros H H1 H2 t' [<-|Ht]; [lia | apply H; exact Ht]. Qed.
-
-Lemma fut_lframe bound F c c' E st E' st' : lframe c c' E st E' st' -> F_lt bound F c -> fut F E st E' st'.
+Lemma fut_lframe bound F c c' E st E' st' : lframe c c' E st E' st' -> F_out bound F c c' -> fut F E st E' st'.
 Proof.
   intros Hf HF t p Ht Hp. split; [apply (lf_incl _ _ _ _ _ _ Hf); exact Hp|].
   apply (lf_cells _ _ _ _ _ _ Hf _ _ Hp). intros (t' & Heq & Hr).
-  apply fmt_var_inj in Heq. subst t'. destruct (HF t Ht). lia.
-Qed.
-
-Lemma E_lt_lframe c c' E st E' st' : lframe c c' E st E' st' -> E_lt E c -> c <= c' -> E_lt E' c'.
-Proof.
-  intros Hf Hlt Hc t p H. destruct (lf_new _ _ _ _ _ _ Hf _ _ H) as [H'|(t' & Heq & Hr)].
-  - specialize (Hlt _ _ H'). lia.
-  - apply fmt_var_inj in Heq. subst. lia.
+  apply fmt_var_inj in Heq. subst t'. destruct (HF t Ht). contradiction.
 Qed.
 
 Section Rel.
@@ -146,7 +141,7 @@ Lemma bind_locals_one E x vs st :
 Proof. reflexivity. Qed.
 
 Lemma op_local c c' E st t ex lv :
-  wfenv E st -> linv st -> E_lt E c -> c <= t < c' ->
+  wfenv E st -> linv st -> sget (fmt_var t) E = None -> c <= t < c' ->
   PureEval E st ex lv ->
   exists stm, cells_ext st stm /\
     Exec E (SLocal [fmt_var t] [ex]) st
@@ -167,8 +162,6 @@ Qed.
 
 Section Ops.
 Variable u : counts.
-Variable bound : N.
-
 Lemma alut_get_set_same l t ex : alut_get (alut_set l t ex) t = Some ex.
 Proof. unfold alut_set. cbn [alut_get]. rewrite N.eqb_refl. reflexivity. Qed.
 Lemma alut_get_set_other l t ex w : w <> t -> alut_get (alut_set l t ex) w = alut_get l w.
@@ -181,29 +174,27 @@ Proof.
 Qed.
 
 Theorem op_iis F E st l t ex sv c c' :
-  wfenv E st -> linv st -> E_lt E c -> c <= t < c' -> bound <= c -> F_lt bound F c -> alut_get l t = None ->
+  wfenv E st -> linv st -> sget (fmt_var t) E = None -> c <= t < c' -> alut_get l t = None ->
   denotes F E st ex sv ->
   exists E' st' F',
     ExecS E (fst (aiis u l t ex)) st (ROk (E', SigNormal) st') /\
     lframe c c' E st E' st' /\ s_out st' = s_out st /\
-    incl F F' /\ F_lt bound F' c' /\
+    (F' = F \/ F' = t :: F) /\
     (1 <= count_of u t -> denotes F' E' st' (aexpand (snd (aiis u l t ex)) t) sv).
 Proof.
-  intros Hwf Hl Hlt Ht Hb HF Hnone Hd. unfold aiis.
+  intros Hwf Hl Hlt Ht Hnone Hd. unfold aiis.
   destruct (N.eqb_spec (count_of u t) 0) as [H0|H0]; [|destruct (N.eqb_spec (count_of u t) 1) as [H1|H1]]; cbn [fst snd].
   - exists E, st, F. splits.
     + apply XS_nil.
     + apply lframe_refl; assumption.
     + reflexivity.
-    + apply incl_refl.
-    + eapply F_lt_mono; [exact HF | lia].
+    + left. reflexivity.
     + intros Hc. lia.
   - exists E, st, F. splits.
     + apply XS_nil.
     + apply lframe_refl; assumption.
     + reflexivity.
-    + apply incl_refl.
-    + eapply F_lt_mono; [exact HF | lia].
+    + left. reflexivity.
     + intros _. unfold aexpand. rewrite alut_get_set_same. exact Hd.
   - destruct (denotes_now _ _ _ _ _ Hd Hwf Hl) as (lv & Hv & Hp).
     destruct (op_local c c' E st t ex lv Hwf Hl Hlt Ht Hp) as (stm & Hx & Hex & Hfr).
@@ -211,8 +202,7 @@ Proof.
     + apply ExecS_one. exact Hex.
     + exact Hfr.
     + cbn [alloc_cell snd s_out]. apply Hx.
-    + apply incl_tl, incl_refl.
-    + apply F_lt_cons; [eapply F_lt_mono; [exact HF | lia] | lia | lia].
+    + right. reflexivity.
     + intros _. unfold aexpand. rewrite Hnone.
       eapply denotes_local; [left; reflexivity | apply sget_sset_same | rewrite get_cell_alloc_new; exact Hv].
 Qed.
